@@ -180,6 +180,12 @@ RATIONALE = [
     ("override_cycle_three", "Zz1 = @:Zz2;\nZz2 = @:Zz3;\nZz3 = @:Zz1;\n", {}),
     ("field_cycle_unboxed", "Zz1 = a:Zz2;\nZz2 = b:Zz1;\n", {}),
     ("leftrec_override_cycle", "@leftrec\nZz1 = @:Zz2 | @:Zz3;\nZz2 = l:*Zz1 '+';\nZz3 = @:Zz1;\n", {}),
+    ("check_function_superscript_digit", "@check(zz\u00b2)\nZz1 = 'a';\n", {}),
+    ("check_function_circled_letter", "@check(\u24b6)\nZz1 = 'a';\n", {}),
+    ("check_function_unicode_ident", "@check(crate::m\u00f3dulo::f\u0151)\nZz1 = 'a';\n", {}),
+    ("extern_function_ordinal_indicator", "@extern(\u00aaf)\nZz1;\n", {}),
+    ("extern_return_type_roman_numeral", "@extern(zz_f -> T\u2160)\nZz1;\n", {}),
+    ("derive_with_superscript_digit", "Zz1 = 'a';\n", {"derives": ["Debug", "De\u00b2"]}),
     ("derive_is_a_path", "Zz1 = 'a';\n", {"derives": ["Debug", "Clone", "serde::Serialize"]}),
     ("derive_with_generics", "Zz1 = 'a';\n", {"derives": ["Debug", "PartialEq<u8>"]}),
     ("derive_starts_with_digit", "Zz1 = 'a';\n", {"derives": ["Debug", "1"]}),
